@@ -9,8 +9,10 @@
     * `C11_calendar`          – calendar start / end / duration are `start_time + k·delta_time`;
     * `C11_unscheduled_no_assignment` – a task reported as not scheduled lists no resource
       (for requirements whose delay-in is smaller than the task number, see finding F19);
-    * `C11_assignment_interval` – every reported assignment of a worker is the busy interval of
-      one of its requirements, with both ends non-negative.
+    * `C11_task_iff_resource` – a task lists the (reported) resource name `x` exactly when the resource entry `x`
+      lists an assignment for the task (`resourceSols_view`: the resource view is, per reported name, what the
+      workers reporting under that name contribute; `busyOf_keys`: a worker holds a busy interval for a task exactly
+      when a requirement of the task names it).
 -/
 import PS.Theorems.C02
 import PS.Theorems.C01
@@ -188,5 +190,534 @@ theorem C11_unscheduled_no_assignment (cfg : Config) (st : State) (ρ : Env) (ca
         have hdl := hdel r hr
         have := hspan.1
         omega
+
+end PS
+
+namespace PS
+
+/-! ### task view ⇔ resource view -/
+
+/-- membership in `dictSet` -/
+theorem mem_dictSet {β} (l : List (String × β)) (k : String) (v : β) (x : String × β) :
+    x ∈ dictSet l k v → x ∈ l ∨ x = (k, v) := by
+  unfold dictSet
+  split
+  · intro h
+    obtain ⟨e, he, rfl⟩ := List.mem_map.1 h
+    split
+    · exact Or.inr rfl
+    · exact Or.inl he
+  · intro h
+    rcases List.mem_append.1 h with h | h
+    · exact Or.inl h
+    · exact Or.inr (List.mem_singleton.1 h)
+
+/-- the keys after `dictSet` -/
+theorem dictSet_keys {β} (l : List (String × β)) (k : String) (v : β) (k' : String) :
+    (∃ v', (k', v') ∈ dictSet l k v) ↔ (∃ v', (k', v') ∈ l) ∨ k' = k := by
+  unfold dictSet
+  split
+  · rename_i hany
+    constructor
+    · rintro ⟨v', h⟩
+      obtain ⟨e, he, heq⟩ := List.mem_map.1 h
+      split at heq
+      · right; injection heq with h1 _; exact h1.symm
+      · left
+        refine ⟨e.2, ?_⟩
+        have : e = (k', v') := heq
+        rw [this] at he ⊢
+        exact he
+    · rintro (⟨v', h⟩ | rfl)
+      · by_cases hk : (k' == k) = true
+        · exact ⟨v, List.mem_map.2 ⟨(k', v'), h, by simp [eq_of_beq hk]⟩⟩
+        · exact ⟨v', List.mem_map.2 ⟨(k', v'), h, by simp [hk]⟩⟩
+      · obtain ⟨e, he, hek⟩ := List.any_eq_true.1 hany
+        exact ⟨v, List.mem_map.2 ⟨e, he, by simp [hek]⟩⟩
+  · constructor
+    · rintro ⟨v', h⟩
+      rcases List.mem_append.1 h with h | h
+      · exact Or.inl ⟨v', h⟩
+      · right; have := List.mem_singleton.1 h; injection this
+    · rintro (⟨v', h⟩ | rfl)
+      · exact ⟨v', List.mem_append_left _ h⟩
+      · exact ⟨v, List.mem_append_right _ (List.mem_singleton.2 rfl)⟩
+
+def HasKey {β} (l : List (String × β)) (k : String) : Prop := ∃ v, (k, v) ∈ l
+
+theorem busy_inner_keys (w : String) (tname : String) (tn : String) :
+    ∀ (rs : List Req) (acc : List (String × Bool)),
+      HasKey (rs.foldl (fun acc r => if r.worker == w then dictSet acc tname r.maybe else acc) acc) tn ↔
+        HasKey acc tn ∨ (tname = tn ∧ ∃ r ∈ rs, r.worker = w) := by
+  intro rs
+  induction rs with
+  | nil => intro acc; simp
+  | cons r rest ih =>
+      intro acc
+      simp only [List.foldl_cons]
+      rw [ih]
+      by_cases hw : (r.worker == w) = true
+      · have hw' : r.worker = w := eq_of_beq hw
+        simp only [hw, if_true]
+        unfold HasKey
+        rw [dictSet_keys]
+        constructor
+        · rintro ((h | h) | ⟨h1, r', hr', h2⟩)
+          · exact Or.inl h
+          · exact Or.inr ⟨h.symm, r, List.mem_cons_self .., hw'⟩
+          · exact Or.inr ⟨h1, r', List.mem_cons_of_mem _ hr', h2⟩
+        · rintro (h | ⟨h1, r', hr', h2⟩)
+          · exact Or.inl (Or.inl h)
+          · rcases List.mem_cons.1 hr' with rfl | hr''
+            · exact Or.inl (Or.inr h1.symm)
+            · exact Or.inr ⟨h1, r', hr'', h2⟩
+      · have hw' : r.worker ≠ w := fun h => hw (by simp [h])
+        simp only [hw, Bool.false_eq_true, if_false]
+        constructor
+        · rintro (h | ⟨h1, r', hr', h2⟩)
+          · exact Or.inl h
+          · exact Or.inr ⟨h1, r', List.mem_cons_of_mem _ hr', h2⟩
+        · rintro (h | ⟨h1, r', hr', h2⟩)
+          · exact Or.inl h
+          · rcases List.mem_cons.1 hr' with rfl | hr''
+            · exact absurd h2 hw'
+            · exact Or.inr ⟨h1, r', hr'', h2⟩
+
+theorem busy_outer_keys (w : String) (tn : String) :
+    ∀ (log : List ReqEvent) (acc : List (String × Bool)),
+      HasKey (log.foldl (fun acc ev =>
+        ev.reqs.foldl (fun acc r => if r.worker == w then dictSet acc ev.task r.maybe else acc) acc) acc) tn ↔
+        HasKey acc tn ∨ ∃ ev ∈ log, ev.task = tn ∧ ∃ r ∈ ev.reqs, r.worker = w := by
+  intro log
+  induction log with
+  | nil => intro acc; simp
+  | cons ev rest ih =>
+      intro acc
+      simp only [List.foldl_cons]
+      rw [ih, busy_inner_keys]
+      constructor
+      · rintro ((h | ⟨h1, h2⟩) | ⟨ev', hev', h⟩)
+        · exact Or.inl h
+        · exact Or.inr ⟨ev, List.mem_cons_self .., h1, h2⟩
+        · exact Or.inr ⟨ev', List.mem_cons_of_mem _ hev', h⟩
+      · rintro (h | ⟨ev', hev', h1, h2⟩)
+        · exact Or.inl (Or.inl h)
+        · rcases List.mem_cons.1 hev' with rfl | hev''
+          · exact Or.inl (Or.inr ⟨h1, h2⟩)
+          · exact Or.inr ⟨ev', hev'', h1, h2⟩
+
+/-- a worker holds a busy interval for task `tn` exactly when some requirement of `tn` names it -/
+theorem busyOf_keys (st : State) (w tn : String) :
+    HasKey (st.busyOf w) tn ↔ ∃ r ∈ st.reqsOf tn, r.worker = w := by
+  unfold State.busyOf
+  rw [busy_outer_keys]
+  unfold State.reqsOf State.eventsOf HasKey
+  simp only [List.not_mem_nil, exists_false, false_or, List.mem_flatMap, List.mem_filter]
+  constructor
+  · rintro ⟨ev, hev, h1, r, hr, h2⟩
+    exact ⟨r, ⟨ev, ⟨hev, by simp [h1]⟩, hr⟩, h2⟩
+  · rintro ⟨r, ⟨ev, ⟨hev, h1⟩, hr⟩, h2⟩
+    exact ⟨ev, hev, by simpa using h1, r, hr, h2⟩
+
+/-- what one worker contributes to the resource view -/
+def WAssign (st : State) (ρ : Env) (w : Worker) (a : String × Int × Int) : Prop :=
+  ∃ e ∈ st.busyOf w.name, a = (e.1, ρ.i (.busyS w.name e.1 e.2), ρ.i (.busyE w.name e.1 e.2)) ∧
+    0 ≤ ρ.i (.busyS w.name e.1 e.2) ∧ 0 ≤ ρ.i (.busyE w.name e.1 e.2)
+
+theorem mem_workerAssignments_aux (ρ : Env) (wn : String) (a : String × Int × Int) :
+    ∀ (busy : List (String × Bool)) (already : List (String × Int × Int)),
+      a ∈ busy.foldl (fun acc e =>
+        let s := ρ.i (.busyS wn e.1 e.2)
+        let en := ρ.i (.busyE wn e.1 e.2)
+        if s ≥ 0 && en ≥ 0 && !acc.contains (e.1, s, en) then acc ++ [(e.1, s, en)] else acc) already ↔
+      a ∈ already ∨ ∃ e ∈ busy, a = (e.1, ρ.i (.busyS wn e.1 e.2), ρ.i (.busyE wn e.1 e.2)) ∧
+        0 ≤ ρ.i (.busyS wn e.1 e.2) ∧ 0 ≤ ρ.i (.busyE wn e.1 e.2) := by
+  intro busy
+  induction busy with
+  | nil => intro already; simp
+  | cons e rest ih =>
+      intro already
+      simp only [List.foldl_cons]
+      rw [ih]
+      by_cases hc : (decide (ρ.i (.busyS wn e.1 e.2) ≥ 0) && decide (ρ.i (.busyE wn e.1 e.2) ≥ 0) &&
+          !already.contains (e.1, ρ.i (.busyS wn e.1 e.2), ρ.i (.busyE wn e.1 e.2))) = true
+      · simp only [hc, if_true]
+        simp only [Bool.and_eq_true, decide_eq_true_eq] at hc
+        constructor
+        · rintro (h | ⟨e', he', h⟩)
+          · rcases List.mem_append.1 h with h | h
+            · exact Or.inl h
+            · exact Or.inr ⟨e, List.mem_cons_self .., List.mem_singleton.1 h, hc.1.1, hc.1.2⟩
+          · exact Or.inr ⟨e', List.mem_cons_of_mem _ he', h⟩
+        · rintro (h | ⟨e', he', h⟩)
+          · exact Or.inl (List.mem_append_left _ h)
+          · rcases List.mem_cons.1 he' with rfl | he''
+            · exact Or.inl (List.mem_append_right _ (List.mem_singleton.2 h.1))
+            · exact Or.inr ⟨e', he'', h⟩
+      · simp only [hc, Bool.false_eq_true, if_false]
+        constructor
+        · rintro (h | ⟨e', he', h⟩)
+          · exact Or.inl h
+          · exact Or.inr ⟨e', List.mem_cons_of_mem _ he', h⟩
+        · rintro (h | ⟨e', he', h⟩)
+          · exact Or.inl h
+          · rcases List.mem_cons.1 he' with rfl | he''
+            · -- the entry was skipped: either a sign test failed (impossible here) or it is already listed
+              left
+              obtain ⟨h1, h2, h3⟩ := h
+              simp only [Bool.and_eq_true, decide_eq_true_eq, not_and, Bool.not_eq_true', Bool.not_eq_false'] at hc
+              have := hc ⟨h2, h3⟩
+              rw [h1]
+              simpa using this
+            · exact Or.inr ⟨e', he'', h⟩
+
+theorem mem_workerAssignments (st : State) (ρ : Env) (w : Worker) (already : List (String × Int × Int))
+    (a : String × Int × Int) :
+    a ∈ workerAssignments st ρ w already ↔ a ∈ already ∨ WAssign st ρ w a := by
+  unfold workerAssignments WAssign
+  exact mem_workerAssignments_aux ρ w.name a (st.busyOf w.name) already
+
+/-- one step of the loop of `build_solution` over the workers -/
+def resStep (st : State) (ρ : Env) (acc : List ResSol) (w : Worker) : List ResSol :=
+  let nm := w.reportName
+  match acc.find? (·.name == nm) with
+  | some _ =>
+      if w.cumulOf.isSome then
+        acc.map (fun x => if x.name == nm then { x with assignments := workerAssignments st ρ w x.assignments } else x)
+      else
+        acc.map (fun x => if x.name == nm then { name := nm, type_ := "Worker", assignments := workerAssignments st ρ w [] } else x)
+  | none => acc ++ [{ name := nm, type_ := "Worker", assignments := workerAssignments st ρ w [] }]
+
+theorem resourceSols_fold (st : State) (ρ : Env) : resourceSols st ρ = st.workers.foldl (resStep st ρ) [] := rfl
+
+/-- the resource view lists, under name `x`, exactly what the workers reporting under `x` contribute -/
+def ResView (st : State) (ρ : Env) (acc : List ResSol) (done : List Worker) : Prop :=
+  ∀ x a, (∃ e ∈ acc, e.name = x ∧ a ∈ e.assignments) ↔ ∃ w ∈ done, w.reportName = x ∧ WAssign st ρ w a
+
+theorem resStep_view (st : State) (ρ : Env) (acc : List ResSol) (done : List Worker) (w : Worker)
+    (hv : ResView st ρ acc done)
+    (hplain : w.cumulOf = none → ∀ e ∈ acc, e.name ≠ w.reportName) :
+    ResView st ρ (resStep st ρ acc w) (done ++ [w]) := by
+  intro x a
+  unfold resStep
+  simp only
+  cases hf : acc.find? (fun r => r.name == w.reportName) with
+  | none =>
+      simp only
+      have hnone : ∀ e ∈ acc, e.name ≠ w.reportName := by
+        intro e he hn
+        have := List.find?_eq_none.1 hf e he
+        simp [hn] at this
+      constructor
+      · rintro ⟨e, he, hx, ha⟩
+        rcases List.mem_append.1 he with he | he
+        · obtain ⟨w', hw', h1, h2⟩ := (hv x a).1 ⟨e, he, hx, ha⟩
+          exact ⟨w', List.mem_append_left _ hw', h1, h2⟩
+        · have := List.mem_singleton.1 he
+          subst this
+          simp only at hx ha
+          refine ⟨w, List.mem_append_right _ (List.mem_singleton.2 rfl), hx, ?_⟩
+          exact ((mem_workerAssignments st ρ w [] a).1 ha).resolve_left (by simp)
+      · rintro ⟨w', hw', h1, h2⟩
+        rcases List.mem_append.1 hw' with hw' | hw'
+        · obtain ⟨e, he, hx, ha⟩ := (hv x a).2 ⟨w', hw', h1, h2⟩
+          exact ⟨e, List.mem_append_left _ he, hx, ha⟩
+        · have := List.mem_singleton.1 hw'
+          subst this
+          exact ⟨_, List.mem_append_right _ (List.mem_singleton.2 rfl), h1,
+            (mem_workerAssignments st ρ w' [] a).2 (Or.inr h2)⟩
+  | some r =>
+      have hr := List.find?_some hf
+      have hrm := List.mem_of_find?_eq_some hf
+      have hrn : r.name = w.reportName := by simpa using hr
+      by_cases hc : w.cumulOf.isSome = true
+      · simp only [hc, if_true]
+        constructor
+        · rintro ⟨e', he', hx, ha⟩
+          obtain ⟨e, he, rfl⟩ := List.mem_map.1 he'
+          by_cases hn : (e.name == w.reportName) = true
+          · simp only [hn, if_true] at hx ha
+            rcases (mem_workerAssignments st ρ w e.assignments a).1 ha with h | h
+            · obtain ⟨w', hw', h1, h2⟩ := (hv x a).1 ⟨e, he, hx, h⟩
+              exact ⟨w', List.mem_append_left _ hw', h1, h2⟩
+            · exact ⟨w, List.mem_append_right _ (List.mem_singleton.2 rfl), by rw [← hx]; exact (eq_of_beq hn).symm, h⟩
+          · simp only [hn, Bool.false_eq_true, if_false] at hx ha
+            obtain ⟨w', hw', h1, h2⟩ := (hv x a).1 ⟨e, he, hx, ha⟩
+            exact ⟨w', List.mem_append_left _ hw', h1, h2⟩
+        · rintro ⟨w', hw', h1, h2⟩
+          rcases List.mem_append.1 hw' with hw' | hw'
+          · obtain ⟨e, he, hx, ha⟩ := (hv x a).2 ⟨w', hw', h1, h2⟩
+            refine ⟨_, List.mem_map.2 ⟨e, he, rfl⟩, ?_⟩
+            by_cases hn : (e.name == w.reportName) = true
+            · simp only [hn, if_true]
+              exact ⟨hx, (mem_workerAssignments st ρ w e.assignments a).2 (Or.inl ha)⟩
+            · simp only [hn, Bool.false_eq_true, if_false]
+              exact ⟨hx, ha⟩
+          · have := List.mem_singleton.1 hw'
+            subst this
+            refine ⟨_, List.mem_map.2 ⟨r, hrm, rfl⟩, ?_⟩
+            have hn : (r.name == w'.reportName) = true := by simp [hrn]
+            simp only [hn, if_true]
+            exact ⟨by rw [hrn]; exact h1, (mem_workerAssignments st ρ w' r.assignments a).2 (Or.inr h2)⟩
+      · -- a plain worker whose name is already listed: excluded by the naming hypothesis
+        have hc' : w.cumulOf = none := by cases h : w.cumulOf <;> simp_all
+        exact absurd hrn (hplain hc' r hrm)
+
+theorem resStep_names (st : State) (ρ : Env) (acc : List ResSol) (done : List Worker) (w : Worker)
+    (hn : ∀ e ∈ acc, ∃ w' ∈ done, w'.reportName = e.name) :
+    ∀ e ∈ resStep st ρ acc w, ∃ w' ∈ done ++ [w], w'.reportName = e.name := by
+  intro e he
+  unfold resStep at he
+  simp only at he
+  split at he
+  · split at he
+    · obtain ⟨e0, he0, rfl⟩ := List.mem_map.1 he
+      obtain ⟨w', hw', h⟩ := hn e0 he0
+      refine ⟨w', List.mem_append_left _ hw', ?_⟩
+      split <;> exact h
+    · obtain ⟨e0, he0, rfl⟩ := List.mem_map.1 he
+      obtain ⟨w', hw', h⟩ := hn e0 he0
+      split
+      · rename_i hnm
+        exact ⟨w, List.mem_append_right _ (List.mem_singleton.2 rfl), rfl⟩
+      · exact ⟨w', List.mem_append_left _ hw', h⟩
+  · rcases List.mem_append.1 he with he | he
+    · obtain ⟨w', hw', h⟩ := hn e he
+      exact ⟨w', List.mem_append_left _ hw', h⟩
+    · have := List.mem_singleton.1 he
+      subst this
+      exact ⟨w, List.mem_append_right _ (List.mem_singleton.2 rfl), rfl⟩
+
+theorem resFold_view (st : State) (ρ : Env) :
+    ∀ (todo done : List Worker) (acc : List ResSol),
+      ResView st ρ acc done → (∀ e ∈ acc, ∃ w' ∈ done, w'.reportName = e.name) →
+      (done ++ todo).Nodup →
+      (∀ w ∈ done ++ todo, ∀ w' ∈ done ++ todo, w'.reportName = w.name → w' = w) →
+      ResView st ρ (todo.foldl (resStep st ρ) acc) (done ++ todo) := by
+  intro todo
+  induction todo with
+  | nil => intro done acc hv _ _ _; simpa using hv
+  | cons w rest ih =>
+      intro done acc hv hn hnd hN
+      simp only [List.foldl_cons]
+      have hstep := resStep_view st ρ acc done w hv (by
+        intro hplain e he hne
+        obtain ⟨w', hw', h⟩ := hn e he
+        have hrep : w.reportName = w.name := by simp [Worker.reportName, hplain]
+        have : w' = w := hN w (by simp) w' (List.mem_append_left _ hw') (by rw [h, hne, hrep])
+        subst this
+        -- w occurs in `done` and again at the head of the remaining list
+        have := List.nodup_append.1 hnd
+        exact this.2.2 w' hw' w' (List.mem_cons_self ..) rfl)
+      have hnames := resStep_names st ρ acc done w hn
+      have := ih (done ++ [w]) (resStep st ρ acc w) hstep hnames (by simpa using hnd) (by simpa using hN)
+      simpa using this
+
+/-- **the resource view**: an entry named `x` lists the assignment `a` iff some worker reporting under `x`
+    contributes it -/
+theorem resourceSols_view (st : State) (ρ : Env) (hnd : st.workers.Nodup)
+    (hN : ∀ w ∈ st.workers, ∀ w' ∈ st.workers, w'.reportName = w.name → w' = w) :
+    ∀ x a, (∃ e ∈ resourceSols st ρ, e.name = x ∧ a ∈ e.assignments) ↔
+      ∃ w ∈ st.workers, w.reportName = x ∧ WAssign st ρ w a := by
+  have := resFold_view st ρ st.workers [] [] (by intro x a; simp) (by simp) (by simpa using hnd) (by simpa using hN)
+  simpa [resourceSols_fold, ResView] using this
+
+/-! keys of `busyOf` are pairwise distinct (it models a Python dict) -/
+
+theorem dictSet_keys_nodup {β} (l : List (String × β)) (k : String) (v : β)
+    (h : (l.map (·.1)).Nodup) : ((dictSet l k v).map (·.1)).Nodup := by
+  unfold dictSet
+  split
+  · have : (l.map (fun e => if e.1 == k then (k, v) else e)).map (·.1) = l.map (·.1) := by
+      rw [List.map_map]
+      apply List.map_congr_left
+      intro e _
+      simp only [Function.comp]
+      split
+      · rename_i hk; exact (eq_of_beq hk).symm
+      · rfl
+    rw [this]; exact h
+  · rename_i hany
+    rw [List.map_append, List.nodup_append]
+    refine ⟨h, by simp, ?_⟩
+    intro a ha b hb
+    simp only [List.map_cons, List.map_nil, List.mem_singleton] at hb
+    subst hb
+    intro hab
+    subst hab
+    obtain ⟨e, he, hek⟩ := List.mem_map.1 ha
+    apply hany
+    exact List.any_eq_true.2 ⟨e, he, by simp [hek]⟩
+
+theorem busyOf_keys_nodup (st : State) (w : String) : ((st.busyOf w).map (·.1)).Nodup := by
+  unfold State.busyOf
+  have inner : ∀ (tname : String) (rs : List Req) (acc : List (String × Bool)), (acc.map (·.1)).Nodup →
+      ((rs.foldl (fun acc r => if r.worker == w then dictSet acc tname r.maybe else acc) acc).map (·.1)).Nodup := by
+    intro tname rs
+    induction rs with
+    | nil => intro acc h; exact h
+    | cons r rest ih =>
+        intro acc h
+        simp only [List.foldl_cons]
+        apply ih
+        split
+        · exact dictSet_keys_nodup acc tname r.maybe h
+        · exact h
+  have outer : ∀ (log : List ReqEvent) (acc : List (String × Bool)), (acc.map (·.1)).Nodup →
+      ((log.foldl (fun acc ev =>
+        ev.reqs.foldl (fun acc r => if r.worker == w then dictSet acc ev.task r.maybe else acc) acc) acc).map (·.1)).Nodup := by
+    intro log
+    induction log with
+    | nil => intro acc h; exact h
+    | cons ev rest ih =>
+        intro acc h
+        simp only [List.foldl_cons]
+        exact ih _ (inner ev.task ev.reqs acc h)
+  exact outer st.reqLog [] (by simp)
+
+theorem eq_of_key_nodup {β} (l : List (String × β)) (h : (l.map (·.1)).Nodup) (a b : String × β)
+    (ha : a ∈ l) (hb : b ∈ l) (hk : a.1 = b.1) : a = b := by
+  induction l with
+  | nil => simp at ha
+  | cons x xs ih =>
+      simp only [List.map_cons, List.nodup_cons] at h
+      rcases List.mem_cons.1 ha with rfl | ha' <;> rcases List.mem_cons.1 hb with rfl | hb'
+      · rfl
+      · exact absurd (List.mem_map.2 ⟨b, hb', hk.symm⟩) h.1
+      · exact absurd (List.mem_map.2 ⟨a, ha', hk⟩) h.1
+      · exact ih h.2 ha' hb'
+
+/-- the flag `busyFlag` looks up is the one of the (unique) entry of the task in the worker's table -/
+theorem busyFlag_of_mem (st : State) (w tn : String) (dflt : Bool) (e : String × Bool)
+    (he : e ∈ st.busyOf w) (hk : e.1 = tn) : st.busyFlag w tn dflt = e.2 := by
+  unfold State.busyFlag
+  cases hf : (st.busyOf w).find? (fun x => x.1 == tn) with
+  | none =>
+      have := List.find?_eq_none.1 hf e he
+      simp [hk] at this
+  | some e' =>
+      have hm := List.mem_of_find?_eq_some hf
+      have hk' : e'.1 = tn := by simpa using List.find?_some hf
+      have := eq_of_key_nodup _ (busyOf_keys_nodup st w) e' e hm he (by rw [hk', hk])
+      rw [this]
+
+/-- the `assigned_resources` loop -/
+def asgStep (st : State) (ρ : Env) (tn : String) (acc : List String) (r : Req) : List String :=
+  match st.findWorker r.worker with
+  | none => acc
+  | some w =>
+    if ρ.i (.busyS w.name tn (st.busyFlag w.name tn r.maybe)) ≥ 0 && !acc.contains w.name && !acc.contains w.reportName
+    then acc ++ [w.reportName] else acc
+
+theorem asgStep_mono (st : State) (ρ : Env) (tn : String) (acc : List String) (r : Req) (x : String) (h : x ∈ acc) :
+    x ∈ asgStep st ρ tn acc r := by
+  unfold asgStep
+  split
+  · exact h
+  · split
+    · exact List.mem_append_left _ h
+    · exact h
+
+theorem asgFold_mono (st : State) (ρ : Env) (tn : String) (x : String) :
+    ∀ (rs : List Req) (acc : List String), x ∈ acc → x ∈ rs.foldl (asgStep st ρ tn) acc := by
+  intro rs
+  induction rs with
+  | nil => intro acc h; exact h
+  | cons r rest ih => intro acc h; exact ih _ (asgStep_mono st ρ tn acc r x h)
+
+theorem findWorker_mem (st : State) (n : String) (w : Worker) (h : st.findWorker n = some w) : w ∈ st.workers := by
+  unfold State.findWorker at h
+  exact List.mem_of_find?_eq_some h
+
+/-- every requirement whose busy interval starts at a non-negative instant puts its worker's reported name
+    in the task's list -/
+theorem asgFold_complete (st : State) (ρ : Env) (tn : String)
+    (hN : ∀ w ∈ st.workers, ∀ w' ∈ st.workers, w'.reportName = w.name → w' = w) :
+    ∀ (rs : List Req) (acc : List String), (∀ y ∈ acc, ∃ w' ∈ st.workers, w'.reportName = y) →
+      ∀ r ∈ rs, ∀ w, st.findWorker r.worker = some w →
+        0 ≤ ρ.i (.busyS w.name tn (st.busyFlag w.name tn r.maybe)) →
+        w.reportName ∈ rs.foldl (asgStep st ρ tn) acc := by
+  intro rs
+  induction rs with
+  | nil => intro acc _ r hr; simp at hr
+  | cons r0 rest ih =>
+      intro acc hacc r hr w hw hb
+      simp only [List.foldl_cons]
+      have hacc' : ∀ y ∈ asgStep st ρ tn acc r0, ∃ w' ∈ st.workers, w'.reportName = y := by
+        intro y hy
+        unfold asgStep at hy
+        split at hy
+        · exact hacc y hy
+        · rename_i w0 hw0
+          split at hy
+          · rcases List.mem_append.1 hy with hy | hy
+            · exact hacc y hy
+            · exact ⟨w0, findWorker_mem st _ w0 hw0, (List.mem_singleton.1 hy).symm⟩
+          · exact hacc y hy
+      rcases List.mem_cons.1 hr with rfl | hr'
+      · apply asgFold_mono
+        unfold asgStep
+        rw [hw]
+        simp only
+        by_cases hc : (decide (ρ.i (.busyS w.name tn (st.busyFlag w.name tn r.maybe)) ≥ 0) && !acc.contains w.name &&
+            !acc.contains w.reportName) = true
+        · rw [if_pos hc]; exact List.mem_append_right _ (List.mem_singleton.2 rfl)
+        · rw [if_neg hc]
+          simp only [Bool.and_eq_true, decide_eq_true_eq, Bool.not_eq_true', not_and] at hc
+          by_cases h1 : acc.contains w.name = true
+          · -- `acc` holds the worker's own name: then that name is a reported name, i.e. the worker's
+            have hm : w.name ∈ acc := by simpa using h1
+            obtain ⟨w', hw', hrep⟩ := hacc _ hm
+            have := hN w (findWorker_mem st _ w hw) w' hw' hrep
+            subst this
+            rw [hrep]; exact hm
+          · have h1' : acc.contains w.name = false := by simpa using h1
+            have := hc ⟨hb, h1'⟩
+            simpa using this
+      · exact ih _ hacc' r hr' w hw hb
+
+theorem taskSol_assigned_fold (st : State) (ρ : Env) (cal : Calendar) (t : Task) :
+    (taskSol st ρ cal t).assigned = (st.reqsOf t.name).foldl (asgStep st ρ t.name) [] := rfl
+
+/-- **C11 (task view ⇔ resource view).**  For every interpretation admitted by `initialize`, a task lists the
+    (reported) resource name `x` among its assigned resources exactly when the resource entry `x` of the solution
+    lists an assignment for that task.  Hypotheses: the workers are pairwise different and nobody else reports under
+    a worker's own name (unit workers report under their cumulative worker's name), and every busy interval that starts at a non-negative instant also ends at one (true of
+    every admitted interpretation when the declared delays fit the durations). -/
+theorem C11_task_iff_resource (st : State) (ρ : Env) (cal : Calendar)
+    (hnd : st.workers.Nodup)
+    (hN : ∀ w ∈ st.workers, ∀ w' ∈ st.workers, w'.reportName = w.name → w' = w)
+    (hfind : ∀ w ∈ st.workers, st.findWorker w.name = some w)
+    (hord : ∀ w ∈ st.workers, ∀ e ∈ st.busyOf w.name,
+      0 ≤ ρ.i (.busyS w.name e.1 e.2) → 0 ≤ ρ.i (.busyE w.name e.1 e.2)) :
+    ∀ t ∈ st.tasks, ∀ x, x ∈ (taskSol st ρ cal t).assigned ↔
+      ∃ e ∈ (buildSolution st ρ cal).resources, e.name = x ∧ ∃ s en, (t.name, s, en) ∈ e.assignments := by
+  intro t ht x
+  have hres : (buildSolution st ρ cal).resources = resourceSols st ρ := rfl
+  rw [hres]
+  constructor
+  · intro hx
+    obtain ⟨r, hr, w, hw, hrep, hb⟩ := C11_assigned_has_requirement st ρ cal t x hx
+    have hwm := findWorker_mem st _ w hw
+    have hwn := findWorker_name st _ w hw
+    -- the entry of the task in the worker's table
+    obtain ⟨m, hm⟩ := (busyOf_keys st w.name t.name).2 ⟨r, hr, hwn.symm⟩
+    have hflag := busyFlag_of_mem st w.name t.name r.maybe (t.name, m) hm rfl
+    rw [hflag] at hb
+    have hbe := hord w hwm (t.name, m) hm hb
+    obtain ⟨e, he, hen, ha⟩ := (resourceSols_view st ρ hnd hN x
+      (t.name, ρ.i (.busyS w.name t.name m), ρ.i (.busyE w.name t.name m))).2
+      ⟨w, hwm, hrep, (t.name, m), hm, rfl, hb, hbe⟩
+    exact ⟨e, he, hen, _, _, ha⟩
+  · rintro ⟨e, he, hen, s, en, ha⟩
+    obtain ⟨w, hwm, hrep, e', he', heq, hb, _⟩ := (resourceSols_view st ρ hnd hN x (t.name, s, en)).1 ⟨e, he, hen, ha⟩
+    have hk : e'.1 = t.name := by injection heq with h1 _; exact h1.symm
+    obtain ⟨r, hr, hrw⟩ := (busyOf_keys st w.name t.name).1 ⟨e'.2, by rw [← hk]; exact he'⟩
+    have hw : st.findWorker r.worker = some w := by rw [hrw]; exact hfind w hwm
+    have hflag := busyFlag_of_mem st w.name t.name r.maybe e' he' hk
+    rw [taskSol_assigned_fold, ← hrep]
+    apply asgFold_complete st ρ t.name hN (st.reqsOf t.name) [] (by simp) r hr w hw
+    rw [hflag, ← hk]
+    exact hb
 
 end PS
